@@ -43,6 +43,24 @@ pub fn gen_f32_bits(r: &mut Rng) -> u32 {
 
 /// A finite, well-behaved f64 (for metadata and for coordinates that are post-processed).
 pub fn gen_finite(r: &mut Rng) -> f64 {
+    if r.chance(1, 12) {
+        // finite values that need all 17 significant digits or sit at the ends of the range
+        return *r.pick(&[
+            f64::MAX,
+            f64::MIN,
+            f64::MIN_POSITIVE,
+            5e-324,
+            1.2345678901234566e-9,
+            -9.876543210987654e25,
+            1.7976931348623155e308,
+            2.2250738585072009e-308,
+            0.1 + 0.2,
+            1e21,
+            1e-7,
+            123456789012345680000.0,
+            -0.0,
+        ]);
+    }
     match r.below(8) {
         0 => 0.0,
         1 => 1.0,
@@ -136,13 +154,25 @@ pub fn gen_int_range(r: &mut Rng) -> (i64, i64) {
     (min as i64, max as i64)
 }
 
+/// f64 -> f32 without leaving the finite range (limits and type ranges must stay finite)
+fn finite32(v: f64) -> f32 {
+    let f = v as f32;
+    if f.is_finite() {
+        f
+    } else if v > 0.0 {
+        1e30
+    } else {
+        -1e30
+    }
+}
+
 fn gen_float_limits32(r: &mut Rng) -> (Option<B32>, Option<B32>) {
     match r.below(4) {
         0 => (None, None),
         1 => (Some(B32::of(0.0)), Some(B32::of(1.0))),
         2 => {
-            let a = gen_finite(r) as f32;
-            let b = a + (r.below(1000) as f32);
+            let a = finite32(gen_finite(r));
+            let b = finite32(a as f64 + r.below(1000) as f64);
             (Some(B32::of(a)), Some(B32::of(b)))
         }
         _ => {
@@ -431,8 +461,16 @@ pub fn gen_xform(r: &mut Rng) -> Xform {
 }
 
 fn gen_lim_for(r: &mut Rng, dt: &DType) -> Lim {
+    // now and then a limit of another value kind than the record (the API stores it as given)
+    if r.chance(1, 6) {
+        return match r.below(3) {
+            0 => Lim::D(B64::of(gen_finite(r))),
+            1 => Lim::S(B32::of(finite32(gen_finite(r)))),
+            _ => Lim::I(r.irange(-1000, 100_000)),
+        };
+    }
     match dt {
-        DType::Single { .. } => Lim::S(B32::of(gen_finite(r) as f32)),
+        DType::Single { .. } => Lim::S(B32::of(finite32(gen_finite(r)))),
         DType::Double { .. } => Lim::D(B64::of(gen_finite(r))),
         DType::Int { min, max } => Lim::I(gen_int_in(r, *min, *max)),
         DType::Scaled { min, max, .. } => Lim::SI(gen_int_in(r, *min, *max)),
